@@ -180,51 +180,10 @@ and "not found" exactly when it holds nothing there; a listing shows exactly the
 caller may see.  The model's own step satisfies it for every state, caller and operation, so
 the clause demands nothing the specification does not. -/
 
-/-- the model's step, seen as an observation -/
-def obsOf (kv : KV) (c : Caller) (op : Op) (aok sok : Bool) : StepObs :=
-  let r := step Cfg.std kv c op aok sok
-  { pre := kv, caller := c, op := op, auditOk := aok, saveOk := sok, res := r.2.1, entries := r.2.2,
-    entryBefore := none, post := r.1, mem := none }
-
 /-- the specification's step satisfies the total-reads clause, always -/
 theorem reads_total_on_model (kv : KV) (c : Caller) (op : Op) (aok sok : Bool) :
-    c02_reads_total (obsOf kv c op aok sok) = true := by
-  cases aok with
-  | false => simp [c02_reads_total, obsOf]
-  | true =>
-    cases op with
-    | get n =>
-      simp only [c02_reads_total, obsOf, step, checkAndLog, allowed, granted, Cfg.std]
-      by_cases hg : Acl.allow true c.rules "get" n.toList = true
-      · simp [hg, KV.get]
-        cases h : kv.secrets[n]? with
-        | none => simp [kvErr]
-        | some s => cases h2 : s.versions[s.active]? <;> simp [h2]
-      · simp [hg]
-    | getVersion n k =>
-      simp only [c02_reads_total, obsOf, step, checkAndLog, allowed, granted, Cfg.std]
-      by_cases hg : Acl.allow true c.rules "get" n.toList = true
-      · simp [hg, KV.getVersion]
-        cases h : kv.secrets[n]? with
-        | none => simp [kvErr]
-        | some s => cases h2 : s.versions[k]? <;> simp [h2, kvErr]
-      · simp [hg]
-    | info n =>
-      simp only [c02_reads_total, obsOf, step, checkAndLog, allowed, granted, Cfg.std]
-      by_cases hg : Acl.allow true c.rules "info" n.toList = true
-      · simp [hg, KV.info]
-        cases h : kv.secrets[n]? <;> simp [kvErr]
-      · simp [hg]
-    | list =>
-      simp only [c02_reads_total, obsOf, step, allowed, granted, Cfg.std, KV.list]
-      have := MonSound.list_items kv (fun n => Acl.allow true c.rules "info" n.toList) kv.secrets.toList
-        (fun p hp => by
-          have := (ExtTreeMap.mem_toList_iff_getElem?_eq_some (t := kv.secrets) (k := p.1) (v := p.2)).mp hp
-          exact this)
-      simp only [ExtTreeMap.map_fst_toList_eq_keys] at this
-      simp
-      exact this
-    | _ => simp [c02_reads_total, obsOf]
+    c02_reads_total (MonSound.obsOf kv c op aok sok) = true :=
+  MonSound.c02_reads_total_sound kv c op aok sok
 
 /-- ...and so does it satisfy `failed_noop`, `frame`, `reads`, `delete_version`, `active`, `bytes_stable` and `put`, in every state that satisfies the
 store invariant (every reachable one) -/
@@ -249,5 +208,12 @@ name is empty) in every state reachable from the empty database -/
 theorem monitor_inv_sound (xs : List Call) (c : Caller) (op : Op) (aok sok : Bool) :
     c02_inv (MonSound.obsOf (run Cfg.std KV.empty xs) c op aok sok) = true :=
   MonSound.c02_inv_sound_reachable xs c op aok sok
+
+/-- All twenty-two clauses the driver evaluates on the steps of the real database - C01's, C02's,
+C04's, C06's, C09's and C18's - hold of the specification's own step in every state reachable
+from the empty database: the monitors demand nothing the specification does not. -/
+theorem all_monitor_clauses_sound (xs : List Call) (c : Caller) (op : Op) (aok sok : Bool) :
+    ∀ cl ∈ DBMon.clauses, cl.2.2 (MonSound.obsOf (run Cfg.std KV.empty xs) c op aok sok) = true :=
+  MonSound.all_clauses_sound xs c op aok sok
 
 end Setec.C02
